@@ -62,7 +62,7 @@ Record coarse_of (C C' : cut) : Prop := {
 (** C with its parts listed in the order of the groups *)
 Definition perm_cut (C C' : cut) : cut :=
   {| c_atoms := c_atoms C; c_bonds := c_bonds C;
-     c_parts := map (fun z => nth (Z.to_nat z) (c_parts C) ([], [])) (flat C') |}.
+     c_parts := map (fun z => nth (Z.to_nat z) (c_parts C) ([], [])) (flat C'); c_dord := c_dord C |}.
 (** position of part p in group order *)
 Definition pos (C' : cut) (p : nat) : nat := index_in (Z.of_nat p) (flat C').
 
@@ -135,7 +135,7 @@ Section Layered.
   Lemma cuts_perm : cuts Cp = cuts C.
   Proof. unfold cuts. change (c_bonds Cp) with (c_bonds C). apply filter_ext_in. intros b Hb. now apply is_cut_perm. Qed.
   Lemma descs_perm x : descs Cp x = descs C x.
-  Proof. unfold descs. now rewrite cuts_perm. Qed.
+  Proof. unfold descs, descs0. change (c_dord Cp) with (c_dord C). now rewrite cuts_perm. Qed.
 
   Theorem perm_cut_wf : wf_cut Cp.
   Proof.
@@ -146,6 +146,7 @@ Section Layered.
     - exact (wc_simple C W).
     - rewrite cuts_perm. exact (wc_labels C W).
     - rewrite cuts_perm. exact (wc_digits C W).
+    - intros kv Hkv. unfold descs0. rewrite cuts_perm. exact (wc_dord C W kv Hkv).
   Qed.
 
   Lemma template_perm name xs T : is_template C name xs T -> is_template Cp name xs T.
